@@ -373,20 +373,41 @@ main (void)
                   int code = b[0], cnt = 0, sz = code == 'y' ? 1 : (code == 'n' || code == 'q') ? 2 : (code == 'x' || code == 't' || code == 'd') ? 8 : 4;
                   static unsigned char arr[1 << 16]; char *p = v; char sg[2] = { (char) code, 0 };
                   DBusMessageIter sub; const void *ptr = arr;
-                  while (*p)
-                    {
-                      unsigned long long raw = strtoull (p, &p, 10);
-                      if (sz == 1) arr[cnt] = (unsigned char) raw;
-                      else if (sz == 2) ((dbus_uint16_t *) arr)[cnt] = (dbus_uint16_t) raw;
-                      else if (sz == 4) ((dbus_uint32_t *) arr)[cnt] = (dbus_uint32_t) raw;
-                      else ((dbus_uint64_t *) arr)[cnt] = (dbus_uint64_t) raw;
-                      cnt++;
-                      if (*p == ',') p++;
-                    }
                   if (!dbus_message_iter_open_container (&its[depth], DBUS_TYPE_ARRAY, sg, &sub)) bad = 1;
                   else
                     {
-                      if (!dbus_message_iter_append_fixed_array (&sub, code, &ptr, cnt)) bad = 1;
+                      /* blocks separated by ';' are appended one after the other; a value with a 'b' in front goes in through
+                       * dbus_message_iter_append_basic */
+                      int more = 1;
+                      while (more && !bad)
+                        {
+                          cnt = 0;
+                          if (*p == 'b')
+                            {
+                              unsigned long long raw; dbus_uint64_t cell;
+                              p++; raw = strtoull (p, &p, 10); cell = 0;
+                              if (sz == 1) *(unsigned char *) &cell = (unsigned char) raw;
+                              else if (sz == 2) *(dbus_uint16_t *) &cell = (dbus_uint16_t) raw;
+                              else if (sz == 4) *(dbus_uint32_t *) &cell = (dbus_uint32_t) raw;
+                              else cell = (dbus_uint64_t) raw;
+                              if (!dbus_message_iter_append_basic (&sub, code, &cell)) bad = 1;
+                            }
+                          else
+                            {
+                              while (*p && *p != ';')
+                                {
+                                  unsigned long long raw = strtoull (p, &p, 10);
+                                  if (sz == 1) arr[cnt] = (unsigned char) raw;
+                                  else if (sz == 2) ((dbus_uint16_t *) arr)[cnt] = (dbus_uint16_t) raw;
+                                  else if (sz == 4) ((dbus_uint32_t *) arr)[cnt] = (dbus_uint32_t) raw;
+                                  else ((dbus_uint64_t *) arr)[cnt] = (dbus_uint64_t) raw;
+                                  cnt++;
+                                  if (*p == ',') p++;
+                                }
+                              if (!dbus_message_iter_append_fixed_array (&sub, code, &ptr, cnt)) bad = 1;
+                            }
+                          if (*p == ';') p++; else more = 0;
+                        }
                       if (!dbus_message_iter_close_container (&its[depth], &sub)) bad = 1;
                     }
                 }
